@@ -25,6 +25,8 @@ sys.path.insert(0, os.path.dirname(HERE))
 from vlib import api, prelude  # noqa: E402
 
 MAX_CEX = int(os.environ.get('VERIF_MAX_CEX', '24'))
+# completed paths replayed natively per partition (differential check of the engine's models against CPython)
+MAX_SAMPLES = int(os.environ.get('VERIF_MAX_SAMPLES', '64'))
 PER_PATH_TIMEOUT = float(os.environ.get('VERIF_PER_PATH_TIMEOUT', '40'))
 
 
@@ -189,7 +191,8 @@ def explore(mod, cnd, pins, budget, out):
                         seen_reasons[key] = seen_reasons.get(key, 0) + 1
                         if seen_reasons[key] <= 3 and len(res['cex']) < MAX_CEX:
                             res['cex'].append({'args': jsonable(full), 'reason': str(ret), 'notes': jsonable(api.path_notes())})
-                    elif len(res['samples']) < 6 and (r_reached or res['paths'] > 50):
+                    elif len(res['samples']) < MAX_SAMPLES and ((r_reached and (res['reached'] <= 16 or res['reached'] % 37 == 0)) or
+                                                                (not r_reached and res['paths'] > 50 and len(res['samples']) < 4)):
                         res['samples'].append({'args': jsonable(full), 'reached': r_reached,
                                                'notes': jsonable(api.path_notes())})
                     status = VerificationStatus.CONFIRMED
